@@ -1,8 +1,10 @@
 (* C15 — frame masking is exact XOR with the running key in every implementation.
    Property statements only; proofs live in Proofs/MaskerProofs.v and Proofs/WsSendProofs.v. *)
+From Coq Require Import String.       (* before List: `length` below is List.length *)
 From Coq Require Import NArith List.
 From AV Require Import Model.Masker Proofs.MaskerProofs.
 From AV Require Import Model.WsFrame Model.WsSend Proofs.WsSendProofs.
+From AV Require Import Gen.MaskOpts Model.MaskOpts Proofs.MaskOptsProofs.
 Import ListNotations.
 Open Scope N_scope.
 
@@ -95,6 +97,46 @@ Example C15_defaults_meet_policy :
   is_server (default_cfg false) = false /\ mask_client_frames (default_cfg false) = true /\ apply_mask (default_cfg false) = true /\
   is_server (default_cfg true) = true /\ mask_server_frames (default_cfg true) = false /\ apply_mask (default_cfg true) = true.
 Proof. vm_compute. repeat split. Qed.
+
+(* "by default" = the application names no masking option.  Over the plumbing table regenerated from the real
+   factories on every run (Gen/MaskOpts.v): the table is total and does, per keyword, "absent leaves alone / value
+   replaces"; hence ANY sequence of setProtocolOptions() calls naming no masking option leaves the masking options at
+   their defaults, those defaults are the masking fields of default_cfg (hypotheses of the two role-policy theorems
+   above), calls with only other keywords were probed neutral and a connection copies its factory's values. *)
+Theorem C15_option_table_is_spec :
+  (forall m, In m client_mask_options -> forall p a, tbl_lookup client_set_table m p a = Some (spec_set p a)) /\
+  (forall m, In m server_mask_options -> forall p a, tbl_lookup server_set_table m p a = Some (spec_set p a)).
+Proof. exact (conj (table_ok_lookup _ _ client_table_ok) (table_ok_lookup _ _ server_table_ok)). Qed.
+Print Assumptions C15_option_table_is_spec.
+
+Theorem C15_defaults_stable_client : forall calls,
+  Forall (names_no_masking_option client_mask_options) calls ->
+  run_calls client_set_table calls client_mask_defaults = client_mask_defaults.
+Proof. exact client_defaults_stable. Qed.
+Print Assumptions C15_defaults_stable_client.
+
+Theorem C15_defaults_stable_server : forall calls,
+  Forall (names_no_masking_option server_mask_options) calls ->
+  run_calls server_set_table calls server_mask_defaults = server_mask_defaults.
+Proof. exact server_defaults_stable. Qed.
+Print Assumptions C15_defaults_stable_server.
+
+Theorem C15_generated_defaults_are_model_defaults :
+  client_mask_defaults = [("applyMask", apply_mask (default_cfg false)); ("maskClientFrames", mask_client_frames (default_cfg false))]%string /\
+  arg_of server_mask_defaults "applyMask" = Some (apply_mask (default_cfg true)) /\
+  arg_of server_mask_defaults "maskServerFrames" = Some (mask_server_frames (default_cfg true)) /\
+  arg_of server_mask_defaults "requireMaskedClientFrames" = Some true /\
+  client_other_calls_neutral = true /\ server_other_calls_neutral = true /\
+  client_connection_copies_factory = true /\ server_connection_copies_factory = true.
+Proof. exact defaults_are_model_defaults. Qed.
+Print Assumptions C15_generated_defaults_are_model_defaults.
+
+(* non-vacuity of the stability theorems: a call naming only other options, and one that does name a masking option *)
+Example C15_calls_witness :
+  names_no_masking_option client_mask_options [] /\
+  run_calls client_set_table [[]; []] client_mask_defaults = client_mask_defaults /\
+  run_calls client_set_table [[("applyMask", false)]; []] client_mask_defaults = [("applyMask", false); ("maskClientFrames", true)]%string.
+Proof. split; [intros m _; reflexivity|]. vm_compute. split; reflexivity. Qed.
 
 (* non-vacuity: a 40-octet payload, misaligned by 5, offset 3, through the SIMD path *)
 Example C15_witness :
